@@ -118,6 +118,8 @@ Proof.
     intros t' m Hin. specialize (I9 _ _ Hin). lia.
   - (* Fire *)
     destruct (tmr s) as [|dl| |] eqn:Tm; try discriminate.
+    2:{ (* spawned before the cancel: inert *)
+        destruct (Z.ltb_spec (now s) (ceil_r r (deadline s))); [discriminate|]. inversion H; subst; clear H. exact I. }
     destruct (Z.ltb_spec (now s) dl); [discriminate|]. inversion H; subst; clear H.
     destruct I as [I2 I3 I4 I5 I6 I7 I8 I9]. constructor; cbn; try assumption.
     + intros X. destruct (I6 dl Tm) as [_ L]. congruence.
@@ -219,7 +221,9 @@ Proof.
     rewrite (B W) in D. discriminate D.
   - destruct (ph s) eqn:P; try discriminate. rewrite D in H. inversion H; subst. reflexivity.
   - destruct (Z.ltb_spec t (now s)); [discriminate|]. inversion H; subst. assumption.
-  - destruct (tmr s); try discriminate. destruct (now s <? dl); [discriminate|]. inversion H; subst. assumption.
+  - destruct (tmr s); try discriminate.
+    + destruct (now s <? dl); [discriminate|]. inversion H; subst. assumption.
+    + destruct (now s <? ceil_r r (deadline s)); [discriminate|]. inversion H; subst. assumption.
   - destruct (otmr s); try discriminate. destruct (now s <? dl); [discriminate|]. inversion H; subst. cbn.
     rewrite D. reflexivity.
   - destruct (ph s); try discriminate. inversion H; subst. assumption.
@@ -263,6 +267,9 @@ Proof. intros Hr H Hin. pose proof (run_inv r Hr ls _ _ (inv_init r t) H) as I. 
 Lemma fire_consistent r s s' : 0 < r -> Inv r s -> step r s Fire = Some s' -> deadline s' <= now s' /\ ph s' = Live.
 Proof.
   intros Hr I H. cbn in H. destruct (tmr s) as [|dl| |] eqn:Tm; try discriminate.
+  2:{ destruct (Z.ltb_spec (now s) (ceil_r r (deadline s))); [discriminate|]. inversion H; subst; clear H. split.
+      - pose proof (ceil_r_ge r (deadline s') Hr). lia.
+      - destruct (ph s') eqn:P; [| |reflexivity]; exfalso; destruct (inv_idle r s' I) as (_ & B & _); congruence. }
   destruct (Z.ltb_spec (now s) dl); [discriminate|]. inversion H; subst; clear H. cbn.
   destruct (inv_arm r s I dl Tm) as [E P]. split; [|assumption].
   pose proof (ceil_r_ge r (deadline s) Hr). unfold deadline in *. cbn. lia.
@@ -303,7 +310,9 @@ Proof.
     + unfold enter. cbn. destruct (_ <? _); cbn; repeat split; discriminate.
     + cbn. repeat split; discriminate.
   - destruct (t <? now s); [discriminate|]. inversion H; subst. cbn. repeat split; assumption.
-  - destruct (tmr s); try discriminate. destruct (now s <? dl); [discriminate|]. inversion H; subst. cbn. repeat split; assumption.
+  - destruct (tmr s); try discriminate.
+    + destruct (now s <? dl); [discriminate|]. inversion H; subst. cbn. repeat split; assumption.
+    + destruct (now s <? ceil_r r (deadline s)); [discriminate|]. inversion H; subst. repeat split; assumption.
   - destruct (otmr s); try discriminate. destruct (now s <? dl); [discriminate|]. inversion H; subst. cbn. repeat split; assumption.
   - destruct (ph s) eqn:P; try discriminate. inversion H; subst. cbn. repeat split; congruence.
   - destruct (ph s) eqn:P; try discriminate. destruct (stack s) as [|f k]; try discriminate.
@@ -346,8 +355,10 @@ Proof.
     + intros W. cbn in W. discriminate W.
   - destruct (t <? now s); [discriminate|]. inversion H; subst; clear H.
     intros W; cbn in W; destruct (Sh W) as [D|O]; [left|right]; assumption.
-  - destruct (tmr s); try discriminate. destruct (now s <? dl); [discriminate|]. inversion H; subst; clear H.
-    intros W; cbn in W; destruct (Sh W) as [D|O]; [left|right]; assumption.
+  - destruct (tmr s); try discriminate.
+    + destruct (now s <? dl); [discriminate|]. inversion H; subst; clear H.
+      intros W; cbn in W; destruct (Sh W) as [D|O]; [left|right]; assumption.
+    + destruct (now s <? ceil_r r (deadline s)); [discriminate|]. inversion H; subst; clear H. exact Sh.
   - destruct (otmr s); try discriminate. destruct (now s <? dl); [discriminate|]. inversion H; subst; clear H.
     intros _. left. cbn. destruct (done s); discriminate.
   - destruct (ph s) eqn:P; try discriminate. inversion H; subst; clear H.
@@ -568,7 +579,9 @@ Proof.
     destruct (fire_consistent r s s1 Hr I E) as [G P1].
     pose proof (step_inv r s Fire s1 Hr I E) as I1.
     assert (F : done s1 = done s /\ stack s1 = stack s /\ ph s1 = ph s).
-    { cbn in E. destruct (tmr s); try discriminate. destruct (now s <? dl); [discriminate|]. inversion E; subst. cbn. auto. }
+    { cbn in E. destruct (tmr s); try discriminate.
+      - destruct (now s <? dl); [discriminate|]. inversion E; subst. cbn. auto.
+      - destruct (now s <? ceil_r r (deadline s)); [discriminate|]. inversion E; subst. auto. }
     destruct F as (Fd & Fs & Fp). rewrite Fp in P1.
     intros _. left.
     destruct (Sh P1) as [D|[[n K] _]].
@@ -757,10 +770,21 @@ Proof.
   - (* CFire *)
     cbn [cstep] in H. destruct (step r s Fire) as [s1|] eqn:E; [|discriminate].
     pose proof (step_inv r s Fire s1 Hr I E) as I1.
+    assert (TC : tmr s = TCancelled \/ exists dl0, tmr s = TArmed dl0).
+    { cbn in E. destruct (tmr s) as [|dlc| |]; try discriminate; [right; exists dlc; reflexivity|left; reflexivity]. }
+    destruct TC as [Tmc|[dlc Tmc]].
+    { (* the action had been handed to its greenlet before context() cancelled it: the call is already complete *)
+      cbn in E. rewrite Tmc in E. destruct (Z.ltb_spec (now s) (ceil_r r (deadline s))); [discriminate|].
+      inversion E; subst s1; clear E.
+      assert (P : ph s = Live).
+      { destruct (ph s) eqn:P; [| |reflexivity]; exfalso; destruct (inv_idle r s I) as (_ & Bq & _); congruence. }
+      destruct (Sh P) as [D|[_ Tm2]]; [|congruence].
+      apply (drain_ontime r MTimeout (length (stack s)) s s' Hr I OT); [|exact H].
+      intros D0. congruence. }
     assert (F : exists dl0, tmr s = TArmed dl0 /\ done s1 = done s /\ now s1 = now s /\ t0 s1 = t0 s /\
                 tmo s1 = tmo s /\ tmr s1 = TFired /\ otmr s1 = otmr s).
-    { cbn in E. destruct (tmr s) as [|dl0| |]; try discriminate. destruct (Z.ltb_spec (now s) dl0); [discriminate|].
-      inversion E; subst. cbn. exists dl0. repeat split; auto. }
+    { cbn in E. rewrite Tmc in E. destruct (Z.ltb_spec (now s) dlc); [discriminate|].
+      inversion E; subst. cbn. exists dlc. repeat split; auto. }
     destruct F as (dl0 & Tm & Fd & Fn & F0 & FT & Ftm & Fo).
     destruct (inv_arm r s I dl0 Tm) as [Edl P].
     assert (DL : deadline s1 = deadline s) by (unfold deadline; congruence).
